@@ -293,6 +293,10 @@ def run_stage(agg, stage, scratch):
                     idx = None
                 note = parts[1].strip() if len(parts) > 1 else ""
             what = first_report_line(kind, r.stderr)
+            if "HARNESS-PANIC" in r.stderr:
+                # a bug of the harness itself: never a verdict about the crate
+                agg.inconclusive.append({"what": "%s shard %d: harness panic" % (name, k), "detail": what, "progress": r.progress})
+                continue
             if kind == "miri" and "unsupported operation" in r.stderr and "Undefined Behavior" not in r.stderr:
                 agg.inconclusive.append({"what": "%s shard %d: miri unsupported operation" % (name, k), "detail": what})
                 continue
